@@ -100,12 +100,17 @@ func c12TypedInput(x *runCtx, wt wireType, b []byte, class string, measureAlloc 
 	if !ok {
 		return
 	}
-	// exactness: what was consumed is exactly one well-formed item (the structural decoder,
-	// which is tied to the Lean model, agrees on where the item ends), and it re-decodes alone
+	// exactness: what was consumed is exactly one well-formed item. "Well-formed" is judged by a walker of RFC 8949's
+	// definite-length grammar that knows no limit and no decoder (the harness twin of the Lean relation WFN; theorem
+	// typed_accepted_is_one_well_formed_item) — not by the structural decoder alone, which refuses items for reasons a
+	// typed target need not share (Tag[T] decodes its content with a fresh nesting budget, so c1 81×64 00 decodes into
+	// Tag[RawBytes] and is one level too deep for RawBytes). Where the structural decoder does accept, it must agree.
+	wfLen, wf := c12ItemLen(b)
 	_, rawConsumed, rawOK, _ := decodeRawImpl(b)
-	if !rawOK || rawConsumed != consumed {
+	if !wf || wfLen != consumed || (rawOK && rawConsumed != consumed) {
 		x.r.Violate(rep.Violation{Kind: "oracle", Check: "C12.exact-consumption", Signature: "C12.exact-typed:" + wt.Name, Input: wt.Name + " " + h,
-			Impl: fmt.Sprintf("typed decode consumed %d bytes; the item there is %d bytes long (well-formed=%v)", consumed, rawConsumed, rawOK), PropertyFails: true})
+			Impl: fmt.Sprintf("typed decode consumed %d bytes; the well-formed item there is %d bytes long (well-formed=%v); the structural decoder: %d bytes (accepted=%v)",
+				consumed, wfLen, wf, rawConsumed, rawOK), PropertyFails: true})
 		return
 	}
 	ok2, c2, _, _ := decodeTypedImpl(wt, b[:consumed])
@@ -329,4 +334,55 @@ func c12TypedInflated(x *runCtx) {
 			}
 		}
 	}
+}
+
+// c12ItemLen is RFC 8949's grammar of definite-length items as a counter of items still owed (Appendix C of the RFC,
+// the Lean relation WFN): the length of the first item of b, if b starts with a well-formed one. No limits, no recursion.
+func c12ItemLen(b []byte) (int, bool) {
+	owed := uint64(1)
+	p := 0
+	for owed > 0 {
+		if p >= len(b) {
+			return 0, false
+		}
+		mt, ai := b[p]>>5, b[p]&0x1f
+		arg := uint64(ai)
+		p++
+		switch {
+		case ai < 24:
+		case ai <= 27:
+			w := 1 << (ai - 24)
+			if p+w > len(b) {
+				return 0, false
+			}
+			arg = 0
+			for _, c := range b[p : p+w] {
+				arg = arg<<8 | uint64(c)
+			}
+			p += w
+		default:
+			return 0, false
+		}
+		owed--
+		switch mt {
+		case 2, 3:
+			if arg > uint64(len(b)-p) {
+				return 0, false
+			}
+			p += int(arg)
+		case 4:
+			if arg > uint64(len(b)) {
+				return 0, false
+			}
+			owed += arg
+		case 5:
+			if arg > uint64(len(b)) {
+				return 0, false
+			}
+			owed += 2 * arg
+		case 6:
+			owed++
+		}
+	}
+	return p, true
 }
